@@ -3,7 +3,7 @@
    [Check ... : statement] and followed by [Print Assumptions].  The hash function is a
    universally quantified parameter [H] of every theorem: nothing is assumed about BLAKE3. *)
 From Coq Require Import List NArith.
-From Echo Require Import Base.Bytes Model.Wal Proofs.WalProofs.
+From Echo Require Import Base.Bytes Model.Wal Proofs.WalProofs Proofs.WalProofs2.
 Import ListNotations.
 Open Scope N_scope.
 
@@ -31,3 +31,32 @@ Theorem commit_codec_roundtrip : forall c, wf_commit c -> decode_commit (encode_
 Proof. exact decode_encode_commit. Qed.
 Check commit_codec_roundtrip : forall c, wf_commit c -> decode_commit (encode_commit c) = Ok c.
 Print Assumptions commit_codec_roundtrip.
+
+(* A committed log followed by ANY uncommitted frames (a transaction whose commit marker never made
+   it to disk) recovers to exactly the committed transactions, in order, and the tail posture names
+   the uncommitted part: nothing of an incomplete transaction is visible. *)
+Theorem recover_committed_log : forall (H : bytes -> N) l0 ts extra,
+  log_valid H l0 ts -> consec (l0 + lenN (log_frames ts)) extra ->
+  Forall (fun f => frame_check H f = None) extra ->
+  recover_fc H (log_frames ts ++ extra) (map w_commit ts) = Ok (map rtx_of ts, expected_tail ts extra).
+Proof. exact recover_fc_log. Qed.
+Check recover_committed_log : forall (H : bytes -> N) l0 ts extra,
+  log_valid H l0 ts -> consec (l0 + lenN (log_frames ts)) extra ->
+  Forall (fun f => frame_check H f = None) extra ->
+  recover_fc H (log_frames ts ++ extra) (map w_commit ts) = Ok (map rtx_of ts, expected_tail ts extra).
+Print Assumptions recover_committed_log.
+
+(* Non-vacuity: a concrete three-transaction log is valid, its encoding has every record in range,
+   and cutting it in the middle of the third transaction recovers the first two with the tail
+   reported after LSN 2. *)
+Example c10_nonvacuous :
+  log_valid exH 0 ex_log /\
+  Forall (lrec_wf exH) (log_recs ex_log) /\ Forall payload_small (log_recs ex_log) /\
+  summarize (recover_segment exH 1 (firstn 2100 (log_bytes exH ex_log))) =
+  summarize (Ok (map rtx_of [ex_t1; ex_t2], TAfter 2)) /\
+  summarize (recover_segment exH 1 (log_bytes exH ex_log)) = summarize (Ok (map rtx_of ex_log, TClean)).
+Proof.
+  split; [exact ex_log_valid|]. split; [|split; [|split; vm_compute; reflexivity]].
+  - repeat constructor; vm_compute; reflexivity.
+  - repeat constructor.
+Qed.
